@@ -57,6 +57,98 @@ def extra_checks(tier, seed):
             viol.append({"unit": "normalize_type", "clause": "distinct-forms", "witness": f"{why}: {a!r} !~ {b!r}"[:180],
                          "w": {"native_outcome": detail[:300], "input": f"{a!r} | {b!r}"[:200]}})
 
+    # ---- the same relation observed where the property says it is used: loaders, dumpers and predicates of ONE shared retort
+    # (equal forms behave identically; different hints keep their own behaviour although both were requested from the same retort)
+    from adaptix import Retort
+    from adaptix._internal.provider.loc_stack_filtering import LocStack, create_loc_stack_checker
+    from adaptix._internal.provider.location import TypeHintLoc
+    load_samples = [0, 1, False, True, "a", b"a", None, 1.0, 2, "x", [1], ["a"], [0, False], {"a": 1}, (1, "a"), [1, "a"], "YQ=="]
+    dump_samples = [0, 1, False, True, "a", b"a", None, 1.0, [1], {"a": 1}, (1, "a"), Col.R, Col.G, {1}]
+    shared = {True: Retort(strict_coercion=True), False: Retort(strict_coercion=False)}
+    counts = {"behaviour": 0, "predicate": 0}
+    fresh_cache = {}
+
+    def behaviour(retort, tp):
+        out = []
+        for kind, samples in (("load", load_samples), ("dump", dump_samples)):
+            try:
+                fn = retort.get_loader(tp) if kind == "load" else retort.get_dumper(tp)
+            except Exception as e:  # noqa: BLE001
+                out.append((kind, "not-created", type(e).__name__))
+                continue
+            for x in samples:
+                try:
+                    r = fn(x)
+                    out.append((kind, repr(x), "ret", type(r).__name__, repr(r)))
+                except Exception as e:  # noqa: BLE001
+                    out.append((kind, repr(x), "raise", type(e).__name__))
+        return out
+
+    def fresh_behaviour(tp, strict):
+        key = (repr(tp), strict)
+        if key not in fresh_cache:
+            fresh_cache[key] = behaviour(Retort(strict_coercion=strict), tp)
+        return fresh_cache[key]
+
+    def first_diff(x, y):
+        return next((f"{p!r} vs {q!r}" for p, q in zip(x, y) if p != q), f"{len(x)} vs {len(y)} observations")
+
+    def predicate_matches(pred, tp):
+        return create_loc_stack_checker(pred).check_loc_stack(None, LocStack(TypeHintLoc(type=tp)))
+
+    def same_behaviour(a, b, why):
+        for strict, retort in shared.items():
+            counts["behaviour"] += 1
+            ba, bb = behaviour(retort, a), behaviour(retort, b)
+            if ba != bb:
+                viol.append({"unit": "equal hints on one retort", "clause": "equivalent-loaders-and-dumpers",
+                             "witness": f"{why}: {a!r} ~ {b!r} strict={strict}"[:180],
+                             "w": {"native_outcome": first_diff(ba, bb)[:300], "input": f"{a!r} | {b!r}"[:200]}})
+                return
+        if not isinstance(a, type) and a is not None:
+            counts["predicate"] += 1
+            try:
+                ok, detail = predicate_matches(a, b) is True, "predicate built from the first hint does not match a location of the second"
+            except Exception as e:  # noqa: BLE001
+                ok, detail = False, f"{type(e).__name__}: {e}"
+            if not ok:
+                viol.append({"unit": "equal hints on one retort", "clause": "equivalent-predicates", "witness": f"{why}: {a!r} ~ {b!r}"[:180],
+                             "w": {"native_outcome": detail[:300], "input": f"{a!r} | {b!r}"[:200]}})
+
+    def never_collapse(a, b, why):
+        for strict, retort in shared.items():
+            for first, second in ((a, b), (b, a)):
+                counts["behaviour"] += 1
+                behaviour(retort, first)
+                got, want = behaviour(retort, second), fresh_behaviour(second, strict)
+                if got != want:
+                    viol.append({"unit": "different hints on one retort", "clause": "never-collapse",
+                                 "witness": f"{why}: {second!r} requested after {first!r} strict={strict}"[:180],
+                                 "w": {"native_outcome": ("behaves differently from the same hint on a new retort: " + first_diff(got, want))[:300],
+                                       "input": f"{first!r} then {second!r}"[:200]}})
+                    return
+        if not isinstance(a, type) and a is not None:
+            counts["predicate"] += 1
+            try:
+                ok, detail = predicate_matches(a, b) is False, "predicate built from the first hint matches a location of the second"
+            except Exception as e:  # noqa: BLE001
+                ok, detail = False, f"{type(e).__name__}: {e}"
+            if not ok:
+                viol.append({"unit": "different hints on one retort", "clause": "never-collapse-predicates",
+                             "witness": f"{why}: {a!r} !~ {b!r}"[:180],
+                             "w": {"native_outcome": detail[:300], "input": f"{a!r} | {b!r}"[:200]}})
+    _same, _differ = same, differ
+
+    def same(a, b, why):  # noqa: F811
+        _same(a, b, why)
+        if len(viol) < 40:
+            same_behaviour(a, b, why)
+
+    def differ(a, b, why):  # noqa: F811
+        _differ(a, b, why)
+        if len(viol) < 40:
+            never_collapse(a, b, why)
+
     atoms = [int, str, bytes, float, None, List[int], Dict[str, int], Tuple[int, str], Col]
     # --- unions: reordering, nesting, duplication, Optional, `|`
     for k in (2, 3):
@@ -142,7 +234,11 @@ def extra_checks(tier, seed):
         "obligations": 0, "discharged": 0, "violations": viol,
         "bounded": [{"unit": "TypeNormalizer.normalize on live typing objects",
                      "bound": f"hint grammar over {len(atoms)} atoms, unions of 2-3 members, literals over {len(lits)} confusable "
-                              f"values: {n_eq} equal-form pairs, {n_ne} distinct-form pairs, {n_id} idempotence checks"}],
+                              f"values: {n_eq} equal-form pairs, {n_ne} distinct-form pairs, {n_id} idempotence checks"},
+                    {"unit": "loaders / dumpers / predicates of one shared retort for the same pairs",
+                     "bound": f"{counts['behaviour']} behaviour comparisons ({len(load_samples)} load + {len(dump_samples)} dump samples, strict and "
+                              f"lax; a different hint requested after the other one must behave as on a new retort), "
+                              f"{counts['predicate']} predicate evaluations"}],
         "samples": [{"equal_pairs": n_eq, "distinct_pairs": n_ne, "idempotence": n_id, "failed": len(viol)}],
         "assumptions": ["typing reflection (get_origin/get_args/__parameters__) is outside the contracts"],
         "solver_time": 0.0,
